@@ -196,3 +196,10 @@ Proof.
   - intros k [<-|[<-|[]]] H; [left; reflexivity | vm_compute in H; discriminate].
   - split; [vm_compute; reflexivity | vm_compute; discriminate].
 Qed.
+
+Lemma final_C08_label_token :
+  labels_of (mkP (Str.s "N") [] [Str.s "1"; Str.s "2"] (LTK (Str.s "##") [])) = [Str.s "N.1"; Str.s "N.2"]
+  /\ labels_of (mkP (Str.s "N") [] [Str.s "1"; Str.s "2"] (LT [])) = [Str.s "N.1"; Str.s "N.2"]
+  /\ labels_of (mkP (Str.s "N") [] [Str.s "1"; Str.s "2"] (LTK (Str.s "##") (Str.s "n##-##"))) = [Str.s "n1-1"; Str.s "n2-2"]
+  /\ labels_of (mkP (Str.s "N") [] [Str.s "1"; Str.s "2"] (LTK (Str.s "##") (Str.s "n%%"))) = [Str.s "n%%"; Str.s "n%%"].
+Proof. vm_compute. repeat split; reflexivity. Qed.
